@@ -226,9 +226,7 @@ func c13Ingest(seed int64, i int, sc c13Scenario, dir string, out *childOut) {
 	atomic.StoreInt32(&returned, 1)
 	out.add("cancellations", 1)
 	out.add("max:return_latency_us", int(time.Since(t0).Microseconds()))
-	if err == nil {
-		out.violation(sig+":returned-nil", "worker returned nil after cancellation", wit)
-	}
+	_ = err // any return value is acceptable after cancellation: the statement only demands the return
 	// grace period: nothing may be delivered after the return
 	if w != nil {
 		w.WriteString("4242 Accepted password for late from 10.0.0.2 port 22 ssh2\n")
@@ -335,10 +333,7 @@ func c13Read(seed int64, i int, sc c13Scenario, out *childOut) {
 	atomic.StoreInt32(&cancelled, 1)
 	cancel()
 	select {
-	case err := <-done:
-		if err == nil {
-			out.violation(sig+":returned-nil", "Read returned nil after cancellation", wit)
-		}
+	case <-done: // any return value is acceptable after cancellation
 	case <-time.After(c13Watch):
 		stuck, why := classifyStacks(vlib.AllStacks(), "auditd.(*Auditd).Read")
 		if stuck {
